@@ -54,6 +54,10 @@ SEQS = [
 ]
 
 
+def precheck():
+    return dec.verify_fixtures(PROPERTY_ID)
+
+
 def tasks(tier, seed):
     rnd = random.Random(seed)
     n = len(SEQS)
